@@ -369,6 +369,33 @@ def integer_coordinates(ck, tier):
                          f"cart2polar of {np.dtype(cast).name} coordinates ({x[k]}, {y[k]}): r = {np.asarray(r, float)[k]:.6g}, for the equal floats {rf[k]:.6g}")
 
 
+def integer_images(ck, tier):
+    """detector frames are arrays of counts: an integer (or float32, or boolean) image gives the polar image, the radial intensities and the
+    angular integrals of its float64 copy — interpolated values are not rounded back to whole counts"""
+    from abel.tools import polar, vmi
+    rng = np.random.default_rng(seed() + 1920)
+    tools = [("reproject_image_into_polar", lambda Z: polar.reproject_image_into_polar(Z, origin=(7, 8))[0]),
+             ("reproject_image_into_polar/dr,dt", lambda Z: polar.reproject_image_into_polar(Z, dr=0.5, dt=0.2)[0]),
+             ("angular_integration_3D", lambda Z: vmi.angular_integration_3D(Z)[1]),
+             ("average_radial_intensity_2D", lambda Z: vmi.average_radial_intensity_2D(Z)[1])]
+    tools += [(f"radial_intensity/{k}", lambda Z, k=k: vmi.radial_intensity(k, Z)[1]) for k in ("int2D", "int3D", "avg2D", "avg3D")]
+    for label, f in tools:
+        for dt in (np.int64, np.uint8, np.int16, np.float32, bool):
+            Zi = (rng.integers(0, 2, size=(15, 17)).astype(bool) if dt is bool else
+                  rng.integers(0, 200, size=(15, 17)).astype(dt))
+            ck.count(("S.int-image", label, np.dtype(dt).name), suite="S.oracle")
+            try:
+                a, b = np.asarray(quiet(f, Zi), float), np.asarray(quiet(f, Zi.astype(np.float64)), float)
+            except Exception as e:
+                ck.violation(dict(site=label.split("/")[0], clause="exception"), dict(tool=label, dtype=np.dtype(dt).name), f"{type(e).__name__}: {e}")
+                continue
+            tol = (1e-5 if dt is np.float32 else 1e-12) * max(1.0, float(np.abs(b).max()))
+            if a.shape != b.shape or np.abs(a - b).max() > tol:
+                ck.violation(dict(site=label.split("/")[0], clause="integer-image"), dict(tool=label, dtype=np.dtype(dt).name, image=Zi.astype(int).tolist()),
+                             f"{label}: a {np.dtype(dt).name} image gives values differing from those of its float64 copy by "
+                             f"{np.abs(a - b).max() if a.shape == b.shape else 'shape'}")
+
+
 def circular_images(ck, tier):
     from abel.tools import circularize
     # … of an already circular image: circularize_image determines the per-angle radial correction itself (both methods); the result
@@ -419,6 +446,7 @@ def run(tier):
     oracle(ck, tier, deep or bool(ck.broken))
     circular_images(ck, tier)
     integer_coordinates(ck, tier)
+    integer_images(ck, tier)
     return ck.finish()
 
 
